@@ -405,6 +405,11 @@ func classify(c *Case, outs []*outcome, v *harness.Verdict) {
 		v.Class("batch:1")
 	} else if c.Batch <= 4 {
 		v.Class("batch:2-4")
+	} else if c.Batch > 50 {
+		v.Class("batch:near-max-int")
+		if c.Start > 0 {
+			v.Class("batch:near-max-int,start>0")
+		}
 	} else {
 		v.Class("batch:5-50")
 	}
